@@ -6,6 +6,7 @@ import (
 	"encoding/json"
 	"flag"
 	"fmt"
+	cosmos_proto "github.com/cosmos/cosmos-proto"
 	"os"
 	"strings"
 
@@ -107,6 +108,9 @@ func cmdAnyutilReplay(args []string) {
 		case "msgBoth":
 			md = both[n%len(both)].Descriptor()
 			name = string(md.FullName())
+		case "msgRequired":
+			md = (&descriptorpb.UninterpretedOption_NamePart{}).ProtoReflect().Descriptor()
+			name = string(md.FullName())
 		case "msgFilesOnly":
 			md, name = onlyMD, string(onlyMD.FullName())
 		case "enum":
@@ -121,6 +125,11 @@ func cmdAnyutilReplay(args []string) {
 		var orig proto.Message
 		var valueBytes []byte
 		encOf := func(md protoreflect.MessageDescriptor) (proto.Message, []byte) {
+			if md.FullName() == "google.protobuf.UninterpretedOption.NamePart" {
+				m := &descriptorpb.UninterpretedOption_NamePart{NamePart: proto.String("part"), IsExtension: proto.Bool(true)}
+				b, _ := proto.MarshalOptions{Deterministic: true}.Marshal(m)
+				return m, b
+			}
 			d := g.Dynamic(md)
 			b, err := proto.MarshalOptions{Deterministic: true}.Marshal(d)
 			if err != nil {
@@ -259,6 +268,8 @@ func cmdAnyutilReplay(args []string) {
 				b2, _ := proto.MarshalOptions{Deterministic: true}.Marshal(u2)
 				if !bytes.Equal(b1, b2) || !bytes.Equal(b1, refb) {
 					emit("unpack-of-pack:paths-disagree", "file-registry (dynamic) path differs from type-registry path", string(mdx.FullName()))
+				} else if !proto.Equal(u2, m) {
+					emit("unpack-of-pack:paths-disagree", "file-registry (dynamic) path result is not Equal to the packed message (same bytes)", string(mdx.FullName()))
 				}
 			}
 		}
@@ -279,6 +290,45 @@ func cmdAnyutilReplay(args []string) {
 			if proto.Unmarshal(deep, m) == nil && proto.Unmarshal(deep, d) == nil {
 				refb, _ := proto.MarshalOptions{Deterministic: true}.Marshal(d)
 				checkPack(m, refb)
+			}
+		}
+	}
+	// messages of protobuf-go's own types: an Any that is itself packed, a message carrying an extension
+	{
+		inner, _ := anyutil.New(&descriptorpb.FileDescriptorSet{File: []*descriptorpb.FileDescriptorProto{{Name: proto.String("x.proto")}}})
+		withExt := &descriptorpb.FieldOptions{Deprecated: proto.Bool(true)}
+		proto.SetExtension(withExt, cosmos_proto.E_Scalar, "cosmos.AddressString")
+		for _, m := range []proto.Message{inner, withExt, &descriptorpb.UninterpretedOption_NamePart{NamePart: proto.String("p"), IsExtension: proto.Bool(false)}} {
+			if m == nil {
+				continue
+			}
+			packs++
+			name := string(m.ProtoReflect().Descriptor().FullName())
+			refb, _ := proto.MarshalOptions{Deterministic: true}.Marshal(m)
+			if pn := catch(func() {
+				a, err := anyutil.New(m)
+				if err != nil || a.TypeUrl != "/"+name {
+					emit("pack:url", fmt.Sprintf("New(%s): url %q err %v", name, a.GetTypeUrl(), err), name)
+					return
+				}
+				dst := new(anypb.Any)
+				if err := anyutil.MarshalFrom(dst, m, proto.MarshalOptions{Deterministic: true}); err != nil || !bytes.Equal(dst.Value, refb) || dst.TypeUrl != "/"+name {
+					emit("pack:value", fmt.Sprintf("MarshalFrom(%s): url %q, value differs from the message's encoding: %v (err %v)", name, dst.TypeUrl, !bytes.Equal(dst.Value, refb), err), name)
+				}
+				u1, e1 := anyutil.Unpack(a, nil, nil)
+				u2, e2 := anyutil.Unpack(a, nil, new(protoregistry.Types))
+				if e1 != nil || e2 != nil {
+					emit("unpack-of-pack:error", fmt.Sprintf("%v / %v", e1, e2), name)
+					return
+				}
+				if !proto.Equal(u1, m) {
+					emit("unpack-of-pack:types-path", "type-registry path result differs from the packed message", name)
+				}
+				if !proto.Equal(u2, m) {
+					emit("unpack-of-pack:paths-disagree", "file-registry (dynamic) path result is not Equal to the packed message", name)
+				}
+			}); pn != "" {
+				emit("pack:panic", pn, name)
 			}
 		}
 	}
